@@ -12,9 +12,9 @@ import (
 
 const (
 	fnLoadOnce  = "syncer.(*Syncer).LoadOnce"
-	fnLoadTxn   = "syncer.(*Syncer).LoadOnce$1"
+	fnLoadTxn   = "syncer.(*Syncer).LoadOnce$update"
 	fnSendOnce  = "syncer.(*Syncer).SendOnce"
-	fnSendTxn   = "syncer.(*Syncer).SendOnce$1"
+	fnSendTxn   = "syncer.(*Syncer).SendOnce$txn"
 	fnReadDBI   = "syncer.(*Syncer).readDBI"
 	fnMainToSh  = "syncer.(*Syncer).mainToShadow"
 	fnShToMain  = "syncer.(*Syncer).shadowToMain"
@@ -124,7 +124,7 @@ func ruleCaptureBeforeProject(c *Check, rule string) {
 			}
 		}
 	}
-	c.Floor(rule, nm, 1, "mainToShadow calls in LoadOnce$1")
+	c.Floor(rule, nm, 1, "mainToShadow calls in LoadOnce body")
 }
 
 // C03-R2 WATERMARK-ATOMIC (reports F9).
@@ -195,7 +195,7 @@ func ruleNativeWrites(c *Check, rule string) {
 	if bad == 0 {
 		c.Ok(rule, fnLoadTxn+"/native-mutators", fmt.Sprintf("%d native-mode paths of the load transaction: the only mutating callees are strategy.Update and OpenDBI(Create); no mirror pass, IterUpdate, EmptyPut, Drop or direct Put/Del", n), c.P.Pos(fn.Pos()))
 	}
-	c.Floor(rule, n, 3, "native-mode paths of LoadOnce$1")
+	c.Floor(rule, n, 3, "native-mode paths of LoadOnce body")
 	// SendOnce: read-only transaction exactly in native mode
 	sfn, sp := c.walkFn(rule, fnSendOnce, WalkConfig{Memo: true,
 		KeepEvent: func(e *Event) bool { return e.Kind == "ret" || e.Kind == "call" && strings.Contains(e.Callee, "$bound") },
